@@ -22,7 +22,8 @@ PARTNER = "RAISE_SUBPROC_ERROR"  # ... this deprecated alias by the `sync=` mech
 KEYS = ["FOO", "BAR", "AUTO_CD", SYNC]
 OBSERVED = KEYS + [PARTNER]
 # FOO: plain, set globally; BAR: plain, unset; AUTO_CD: registered bool with default; SYNC: bool + synced alias
-SCOPE_VALS = {"FOO": ["s"], "BAR": ["s"], "AUTO_CD": [True], SYNC: [True]}
+SCOPE_VALS = {"FOO": ["s", ""], "BAR": ["s"], "AUTO_CD": [True, False], SYNC: [True]}  # incl. falsy scoped values
+OVERLAY_KEYS = ["FOO", "BAR"]  # alias overlays are plain dict layers: two plain keys suffice
 SET_VALS = {"FOO": ["n"], "BAR": ["n"], "AUTO_CD": [True], SYNC: [True]}
 DEL = "<DELETE_VAR>"
 ABSENT = "<absent>"
@@ -34,14 +35,16 @@ def _events():
     for k in KEYS:
         for v in SCOPE_VALS[k] + [DEL]:
             evs.append(["swap", k, v])
-            evs.append(["overlay", k, v])
+            if k in OVERLAY_KEYS:
+                evs.append(["overlay", k, v])
     evs.append(["exit", "return"])
     evs.append(["exit", "raise"])
     for k in KEYS:
         for v in SET_VALS[k]:
             evs.append(["set", k, v])
         evs.append(["del", k])
-        evs.append(["ovset", k, SCOPE_VALS[k][0]])
+        if k in OVERLAY_KEYS:
+            evs.append(["ovset", k, SCOPE_VALS[k][0]])
     return evs
 
 
